@@ -68,6 +68,14 @@ static void run_case(Ctx& c, uint64_t idx) {
         int t = uriTestMemoryManager(&mm); if (t != URI_SUCCESS) c.violation("C15", "alloc/self-test-fails", fmt("rc=%d", t));
         c.evaluations += 3;
     }
+    if (idx % 32 == 5) {
+        // the same manager object completed a second time from another backend is wired to THAT backend (and to nothing of the first)
+        Backend be2; UriMemoryManager mm2 = mm; int rc2 = uriCompleteMemoryManager(&mm2, &be2.mm); c.evaluations++;
+        if (rc2 != URI_SUCCESS) c.violation("C15", "alloc/second-completion-failed", fmt("rc=%d", rc2));
+        else { uint64_t c1 = be.calls, c2 = be2.calls; void* p = mm2.malloc(&mm2, 24); void* q = p ? mm2.realloc(&mm2, p, 100) : nullptr; if (q) mm2.free(&mm2, q); else if (p) mm2.free(&mm2, p);
+            if (be.calls != c1 || be2.calls == c2 || !p) c.violation("C15", "alloc/manager-completed-twice-stays-wired-to-first-backend", fmt("first backend calls +%llu, second +%llu, malloc=%p", (unsigned long long)(be.calls - c1), (unsigned long long)(be2.calls - c2), p));
+            if (!be2.live.empty()) c.violation("C15", "alloc/backend-blocks-outstanding", "after completing twice"); }
+    }
     std::map<char*, Block> live; Str trace;
     int steps = r.range(5, 200);
     if (r.chance(1, 3)) be.fail_at = (long)be.calls + r.range(1, 40);
